@@ -863,6 +863,40 @@ package machine
 //@   loop 1 invariant act:   !m.disposing ==> nodup(activeStates) && subset(activeStates, m.stateNames) && (forall s string :: mem(activeStates, s) <==>
 //@        ((mem(old(m.activeStates), s) && !(exists j int :: ghost.finalsDone <= j && j < idx1 && len(t.Exits) <= j && finals[j] == s))
 //@          || (exists j int :: ghost.finalsDone <= j && j < idx1 && j < len(t.Exits) && finals[j] == s)))
+//@ func Pass(args ...ArgsApi) (r A)
+//@   trusted builds the typed-arguments map (reflection-keyed); only that it is a fresh non-nil map matters here
+//@   ensures nn: !isnil(r) && fresh(r)
+//@ func (m *Machine) handlerLoop()
+//@   trusted the handler goroutine (spawned with go: not executed at the spawn site)
+
+// Panic recovery (called by the handler loop when a handler panicked): unless the
+// machine is disposing or the faulting transition itself is adding Exception, the
+// transition is marked canceled and completed and an Add{Exception} mutation is
+// put at the very front of the queue, so it is the next transition to run.
+//@ func (m *Machine) recoverToErr(handler *handler, r recoveryData)
+//@   props C08
+//@   abstracts the restarted handler loop (go statement) is not executed; the error text is opaque (fmt)
+//@   requires nn:    m.t != nil && m.t.Machine == m && m.t.Mutation != nil && m.t.Mutation.cacheCalled != nil && m.t.cacheTargetStates != nil && m.t.MachApi != nil
+//@   requires owner: m.queueProcessing && QueueInv(m) && SchemaInv(m)
+//@   requires locks: unlocked(m.activeStatesMx) && unlocked(m.schemaMx) && unlocked(m.queueMx) && unlocked(m.tracersMx) && unlocked(m.logEntriesLock)
+//@   requires inv:   ClockInv(m) && !isnil(m.clock)
+//@   requires room:  forall s string :: m.clock[s] <= MaxU64 - 2
+//@   requires exception: mem(m.stateNames, "Exception")
+//@   requires called: forall i int :: 0 <= i && i < len(m.t.Mutation.Called) ==> -1 <= m.t.Mutation.Called[i] && m.t.Mutation.Called[i] < len(m.stateNames)
+//@   requires tracers: forall i int :: 0 <= i && i < len(m.tracers) ==> m.tracers[i] != nil
+//@   requires final: m.t.latestHandlerIsFinal ==> (nodup(m.t.Exits) && nodup(m.t.Enters) && subset(m.t.Exits, m.stateNames)
+//@                     && (forall j int :: 0 <= j && j < len(m.t.Exits) ==> !mem(m.t.Enters, m.t.Exits[j]) && !mem(m.activeStates, m.t.Exits[j]) && m.t.Exits[j] != "")
+//@                     && (forall j int :: 0 <= j && j < len(m.t.Enters) ==> m.t.Enters[j] != "") && FaultAt(m.t, ghost.finalsDone))
+//@   assigns  *
+//@   ensures  disposing: old(m.disposing) ==> unchanged(m.queue, m.activeStates) && mapeq(m.clock, old(m.clock))
+//@   ensures  nested:    !old(m.disposing) && old(mem(m.t.Mutation.Called, index(m.stateNames, "Exception"))) ==> unchanged(m.queue, m.activeStates) && mapeq(m.clock, old(m.clock))
+//@   ensures  prepended: !old(m.disposing) && !old(mem(m.t.Mutation.Called, index(m.stateNames, "Exception"))) ==>
+//@                 len(m.queue) == old(len(m.queue)) + 1 && fresh(m.queue[0]) && m.queue[0].Type == MutationAdd && !m.queue[0].IsCheck
+//@                 && len(m.queue[0].Called) == 1 && m.queue[0].Called[0] == index(m.stateNames, "Exception")
+//@                 && (forall i int :: 0 <= i && i < old(len(m.queue)) ==> m.queue[i + 1] == old(m.queue)[i])
+//@   ensures  canceled:  !old(m.disposing) && !old(mem(m.t.Mutation.Called, index(m.stateNames, "Exception"))) ==> !old(m.t).IsAccepted && old(m.t).IsCompleted
+//@   ensures  inv:       ClockInv(m)
+
 //@ func (m *Machine) StateNames() (r S)
 //@   trusted shared cached copy of stateNames (its lock discipline is examined under C12)
 //@   ensures def: seqeq(r, m.stateNames)
